@@ -47,10 +47,10 @@ func fatal(format string, a ...any) {
 var sortedRangeMaps = map[string]bool{"remoteDevices": true}
 
 type stats struct {
-	SortedRange                                              int
+	SortedRange                                             int
 	Mutex, RWMutex, Go, AfterFunc, Ticker, Yield, StmtYield int
-	Files                                                    int
-	Unsupported                                              []string
+	Files                                                   int
+	Unsupported                                             []string
 }
 
 var st stats
@@ -600,6 +600,9 @@ func VerifResetEvents() { Events = events{} }
 
 // VerifSubscribeCore registers a handler at the core level (what DeviceLocal does for itself).
 func VerifSubscribeCore(h api.EventHandlerInterface) { _ = Events.subscribe(api.EventHandlerLevelCore, h) }
+
+// VerifUnsubscribeCore removes a core level handler (what DeviceLocal does when its last remote device goes).
+func VerifUnsubscribeCore(h api.EventHandlerInterface) { _ = Events.unsubscribe(api.EventHandlerLevelCore, h) }
 
 // VerifEventHandlerCount returns the number of registered handlers.
 func VerifEventHandlerCount() int { return len(Events.handlers) }
